@@ -126,6 +126,14 @@ Theorem C03_iter_sub_elements :
     forall f, (List.length (kids n) + 1 <= f)%nat -> ei_drain f (ei_new e) w = Val (kids n).
 Proof. exact ei_iter_spec. Qed.
 
+(* ElementsIterator between two calls: the content list may have changed arbitrarily *)
+Theorem C03_iter_sub_elements_tolerant :
+  forall (s : ei_state) (w : world) (n : node), w_nodes w (ei_elem s) = Some n ->
+    exists o s', ei_next s w = Val (o, s') /\ ei_elem s' = ei_elem s /\
+      (forall e, o = Some e -> ei_last s <> Some e /\ ei_last s' = Some e /\ In e (kids n)) /\
+      (o = None -> ei_index s' = USIZE_MAX /\ ei_last s' = ei_last s).
+Proof. exact ei_next_tolerant. Qed.
+
 Theorem C03_iter_file :
   forall (w : world) (file max : N) (fl : Heap.file) (x : model), Core w ->
     nth_opt (w_files w) (N.to_nat file) = Some fl -> nth_opt (w_models w) (N.to_nat (f_model fl)) = Some x ->
